@@ -1,12 +1,17 @@
 #!/bin/sh
-# MANIFEST.setup_cmd: builds the worker binaries from files on disk (offline)
-# and thereby warms the Go build cache (plain and -race).
+# MANIFEST.setup_cmd: builds one worker binary per claimed property from files
+# on disk (offline) and thereby warms the Go build cache (plain and -race).
 set -e
 cd "$(dirname "$0")"
 export GOFLAGS=-mod=mod GOPROXY=off GOSUMDB=off GOTOOLCHAIN=local
 mkdir -p .build evidence replays
 cp /repo/go.sum harness/go.sum
-(cd harness && go build -tags verif -o ../.build/vworker ./cmd/vworker)
-(cd harness && go build -tags verif -race -o ../.build/vworker-race ./cmd/vworker) || echo "race build failed (C17 will report it)"
-python3-vt -c "import mpmath, numpy, scipy, jsonschema" 
+for f in harness/cmd/vworker/reg_c*.go; do
+  id=$(basename "$f" .go | sed 's/reg_c/C/')
+  (cd harness && go build -tags "verif,p$id" -o "../.build/vworker-$id" ./cmd/vworker) || echo "build of $id failed"
+done
+if [ -f harness/cmd/vworker/reg_c17.go ]; then
+  (cd harness && go build -tags "verif,pC17" -race -o ../.build/vworker-C17-race ./cmd/vworker) || echo "race build failed (C17 will report it)"
+fi
+python3-vt -c "import mpmath, numpy, scipy, jsonschema"
 echo setup-ok
